@@ -56,6 +56,12 @@ func Core() Spec {
 		fix(Send(B, C, B1, "-1", "0")),        // negative
 		fix(Send(B, B, B1, "1", "0.5")),       // self send
 		// values just outside what the stateless validation admits
+		// a sign after a leading decimal point: not a decimal numeral
+		fix(Send(B, C, B1, "0", ".-5")),
+		fix(Send(B, C, B1, ".-5", "0")),
+		fix(Retire(B, B1, ".-5")),
+		fix(Cancel(C, B1, ".-25")),
+		MintFresh(A, B1, B, ".-5", "0"),
 		fix(Send(B, C, B1, "0", "0")),  // nothing to send
 		fix(Send(B, C, B1, "0", "-1")), // negative retired leg
 		fix(Retire(B, B1, "0")),        // zero
@@ -125,6 +131,13 @@ func Basket() Spec {
 		fix(Take(B, RCT, "1", false)),           // auto-retire basket, retire_on_take=false
 		fix(Put(C, "eco.uC.NOPE", BC(B1, "1"))), // unknown basket
 		fix(Take(B, NCT, "2000001", false)),     // more than the basket holds in the seed
+		// values just outside what the stateless validation admits
+		fix(Put(B, NCT, BC(B1, "0"))),
+		fix(Put(B, NCT, BC(B1, "-1"))),
+		fix(Put(B, NCT, BC(B1, "1"), BC(B2, "-0.5"))),
+		fix(Put(B, NCT, BC(B1, ".-5"))), // a sign after a leading decimal point
+		fix(Take(B, NCT, "0", false)),
+		fix(Take(B, NCT, "-5", false)),
 	}
 	good := []E{
 		fix(Put(B, NCT, BC(B1, "1.5"))),
@@ -202,6 +215,8 @@ func Market() Spec {
 		UpdateOrder(B, B, 0, "", &sdk.Coin{Denom: "uregen", Amount: sdk.NewInt(-1)}, true, nil),
 		UpdateOrder(B, B, 0, "0", nil, true, nil),    // quantity zero
 		UpdateOrder(B, B, 0, "-0.5", nil, true, nil), // negative quantity
+		fix(Sell(B, B1, ".-5", ur(3), true, nil)),    // a sign after a leading decimal point
+		Buy(D, "dot-minus-qty", BuySpec{Seller: B, K: 0, Qty: ".-5", DAR: true, MaxFee: I64(100)}),
 		Buy(D, "zero-qty", BuySpec{Seller: B, K: 0, Qty: "0", DAR: true, MaxFee: I64(100)}),
 		Buy(D, "negative-qty", BuySpec{Seller: B, K: 0, Qty: "-0.5", DAR: true, MaxFee: I64(100)}),
 	}
